@@ -67,6 +67,15 @@ pub enum ESpecError {
     /// Invalid IV length (must be 1-8 bytes)
     #[error("Invalid IV length: {0} bytes, must be 1-8")]
     InvalidIvLength(usize),
+
+    /// Specs nested deeper than the parser accepts
+    #[error("Spec nesting at position {position} exceeds the maximum depth of {max}")]
+    NestingTooDeep {
+        /// Position in input
+        position: usize,
+        /// Maximum nesting depth accepted
+        max: usize,
+    },
 }
 
 /// Encoding specification defining how to encode/compress data
